@@ -32,7 +32,7 @@ func refPos(src string, off int) (line, col int) {
 }
 
 func runC13(h *hx.H) {
-	h.Rule = "every text T of <=5 (quick) / <=6 (thorough) symbols over {a, TAB, e-acute, emoji, CR, LF, space} embedded as `/*T*/ x`, `x //T` (T without LF) bare `T x` (ASCII subset), and for |T| <= 3 inside string literals (`\"T\" x`, after a backslash, inside unfinished \\x, \\u and octal escapes): for every token and comment the reported start (and exclusive end) line/column must equal the reference function at that offset, and every AST node's span must start no later than it ends; non-trivial = text with a tab, a multi-byte character or a newline"
+	h.Rule = "(each source also behind a UTF-8 byte-order mark, with the positions of the text without it as reference) every text T of <=5 (quick) / <=6 (thorough) symbols over {a, TAB, e-acute, emoji, CR, LF, space} embedded as `/*T*/ x`, `x //T` (T without LF) bare `T x` (ASCII subset), and for |T| <= 3 inside string literals (`\"T\" x`, after a backslash, inside unfinished \\x, \\u and octal escapes): for every token and comment the reported start (and exclusive end) line/column must equal the reference function at that offset, and every AST node's span must start no later than it ends; non-trivial = text with a tab, a multi-byte character or a newline"
 	alpha := []string{"a", "\t", "é", "😀", "\r", "\n", " "}
 	maxLen := 5
 	if h.Thorough() {
@@ -68,7 +68,14 @@ func runC13(h *hx.H) {
 	rec("", 0)
 }
 
+// checkPositions checks the text as it is and behind a UTF-8 byte-order mark: the lexer drops
+// the mark, so every item must have the same offset, line and column as without it.
 func checkPositions(h *hx.H, id, src, t string) {
+	checkPositionsBOM(h, id, src, t, "")
+	checkPositionsBOM(h, id+"/bom", src, t, "\xef\xbb\xbf")
+}
+
+func checkPositionsBOM(h *hx.H, id, src, t, bom string) {
 	h.Eval(1)
 	h.State(1)
 	h.Trace(1)
@@ -76,14 +83,14 @@ func checkPositions(h *hx.H, id, src, t string) {
 		h.NonTrivial++
 	}
 	fail := func(sig, format string, args ...any) {
-		h.Violate(sig, id, fmt.Sprintf("source %q: ", src)+fmt.Sprintf(format, args...), nil)
+		h.Violate(sig, id, fmt.Sprintf("source %q: ", bom+src)+fmt.Sprintf(format, args...), nil)
 	}
 	defer func() {
 		if p := recover(); p != nil {
 			fail("position-panic", "panic: %v", p)
 		}
 	}()
-	file, _ := parser.Parse("t.proto", bytes.NewReader([]byte(src)), reporter.NewHandler(reporter.NewReporter(func(reporter.ErrorWithPos) error { return nil }, nil)))
+	file, _ := parser.Parse("t.proto", bytes.NewReader([]byte(bom+src)), reporter.NewHandler(reporter.NewReporter(func(reporter.ErrorWithPos) error { return nil }, nil)))
 	if file == nil {
 		fail("nil-ast", "no AST")
 		return
